@@ -496,6 +496,29 @@ func (env *SpecEnv) evalCall(e *SExpr) TV {
 		if tv, ok := env.streamBuiltin(name, e); ok {
 			return tv
 		}
+		if name == "ncalls" || name == "callarg" || name == "callret" {
+			if len(e.Args) == 0 || e.Args[0].K != "str" {
+				env.fail(e, name+": first argument must be a string literal (callee expression text)")
+			}
+			k := "$call." + e.Args[0].Name
+			if name == "ncalls" {
+				return TV{ghostInt(env.st, k+".n"), types.Typ[types.Int]}
+			}
+			idx, ok := intConst(env.eval(e.Args[1]).T)
+			if !ok {
+				env.fail(e, name+": index must be a constant")
+			}
+			kind := "arg"
+			if name == "callret" {
+				kind = "ret"
+			}
+			gk := fmt.Sprintf("%s.%s%d", k, kind, idx)
+			t, has := env.st.ghost[gk]
+			if !has {
+				env.fail(e, "no call of "+e.Args[0].Name+" recorded on any path to this point")
+			}
+			return TV{t, vc.ghostTypes[gk]}
+		}
 		switch name {
 		case "old":
 			if env.old == nil {
